@@ -11,6 +11,15 @@ def main():
     if not ids:
         ids = [c["property_id"] for c in json.load(open(os.path.join(ROOT, "MANIFEST.json")))["checks"]]
     patch = os.path.join(d, "patch.diff")
+    lock = "/tmp/seedtest.lock"
+    try:
+        fd = os.open(lock, os.O_CREAT | os.O_EXCL | os.O_WRONLY)
+        os.write(fd, str(os.getpid()).encode()); os.close(fd)
+    except FileExistsError:
+        print("refusing: another seedtest holds", lock)
+        sys.exit(2)
+    import atexit
+    atexit.register(lambda: os.path.exists(lock) and os.remove(lock))
     st = subprocess.run(["git", "-C", "/repo", "status", "--porcelain"], capture_output=True, text=True).stdout.strip()
     if st:
         print("refusing: /repo has uncommitted changes:\n" + st)
